@@ -131,6 +131,9 @@ pub struct HtmlOpts {
     /// the sink's answer to allow_declarative_shadow_roots (MSink's attach_declarative_shadow always
     /// fails, so the tree must come out as without shadow roots)
     pub allow_shadow: bool,
+    /// fragment case only: hand `new_for_fragment` a (detached) HTML `form` element as the form element pointer, as
+    /// `parse_fragment_for_element` does for a context element that has a form ancestor
+    pub fragment_form: bool,
 }
 
 impl Default for HtmlOpts {
@@ -145,6 +148,7 @@ impl Default for HtmlOpts {
             context: None,
             context_allows_scripting: true,
             allow_shadow: false,
+            fragment_form: false,
         }
     }
 }
@@ -161,7 +165,7 @@ impl HtmlOpts {
     }
     pub fn describe(&self) -> String {
         format!(
-            "ctx={:?} scripting={} srcdoc={} drop_doctype={} quirks={:?} exact=({},{}) bom={} profile={} shadow={}",
+            "ctx={:?} scripting={} srcdoc={} drop_doctype={} quirks={:?} exact=({},{}) bom={} profile={} shadow={} fragment_form={}",
             self.context.as_ref().map(|c| format!("{}:{}{:?}", short_ns(&c.0), c.1, c.2)),
             self.scripting,
             self.iframe_srcdoc,
@@ -171,7 +175,8 @@ impl HtmlOpts {
             self.tb_exact_errors,
             self.tok.discard_bom,
             self.tok.profile,
-            self.allow_shadow
+            self.allow_shadow,
+            self.fragment_form
         )
     }
 }
@@ -207,11 +212,26 @@ pub fn make_html_parser<S: TreeSink>(sink: S, opts: &HtmlOpts) -> HtmlTok<S> {
         },
         Some((ns, local, attrs)) => {
             let ctx = html5ever::tree_builder::create_element(&sink, qual(ns, local), attr_list(attrs));
-            let tb = TreeBuilder::new_for_fragment(sink, ctx, None, opts.tb_opts());
+            // "the nearest node to the context element that is a form element (going straight up the ancestor chain,
+            // and including the element itself)": the context itself when it is an HTML form, else a form outside the fragment
+            let form = fragment_form_handle(&sink, opts, &ctx);
+            let tb = TreeBuilder::new_for_fragment(sink, ctx, form, opts.tb_opts());
             let mut to = opts.tok.to_real();
             to.initial_state = Some(tb.tokenizer_state_for_context_elem(opts.context_allows_scripting));
             Tokenizer::new(tb, to)
         },
+    }
+}
+
+/// The form element pointer handed to `new_for_fragment` when `opts.fragment_form` is set.
+pub fn fragment_form_handle<S: TreeSink>(sink: &S, opts: &HtmlOpts, ctx: &S::Handle) -> Option<S::Handle> {
+    let (ns, local, _) = opts.context.as_ref()?;
+    if !opts.fragment_form {
+        None
+    } else if ns == crate::tree::NS_HTML && local == "form" {
+        Some(ctx.clone())
+    } else {
+        Some(html5ever::tree_builder::create_element(sink, qual(crate::tree::NS_HTML, "form"), vec![]))
     }
 }
 
